@@ -39,12 +39,16 @@ Clamp(n) == IF n < 1 THEN 1 ELSE IF n > 255 THEN 255 ELSE n
 ConvClass(v) == CASE v = "inf" -> "OverflowError" [] v = "list" -> "TypeError" [] OTHER -> "ValueError"
 
 \* ------------------------------------------------------------------ tables: exception kinds
-Kinds == {"Foreign", "Library", "KeyboardInterrupt", "WithCode", "Chained", "TagOpen", "TagClose", "TagUnbalanced",
-          "MultiLine", "NonAscii", "Backslash", "NoSource", "StrFails", "LibraryTagged", "LibraryBackslash"}
+\* Code*: exceptions carrying a `code` attribute that is no exit status: a method, None, a string, a float, an integer
+\* out of range.  TagCloseOpen / LibraryCloseOpen: the message closes a tag it did not open and leaves another one open.
+CodeKinds == {"WithCode", "CodeMethod", "CodeNone", "CodeString", "CodeFloat", "CodeBig"}
+Kinds == {"Foreign", "Library", "KeyboardInterrupt", "Chained", "TagOpen", "TagClose", "TagUnbalanced", "TagCloseOpen",
+          "MultiLine", "NonAscii", "Backslash", "NoSource", "StrFails", "LibraryTagged", "LibraryBackslash",
+          "LibraryCloseOpen"} \cup CodeKinds
 IsInterrupt(k) == k = "KeyboardInterrupt"
-IsLibrary(k) == k \in {"Library", "LibraryTagged", "LibraryBackslash"}          \* CliKitException subclasses: simple report
+IsLibrary(k) == k \in {"Library", "LibraryTagged", "LibraryBackslash", "LibraryCloseOpen"}          \* CliKitException subclasses: simple report
 ClassOf(k) == CASE k = "KeyboardInterrupt" -> "KeyboardInterrupt" [] IsLibrary(k) -> "GenLibraryError"
-                [] k = "WithCode" -> "WithCodeError" [] k = "StrFails" -> "StrFailsError"
+                [] k \in CodeKinds -> "WithCodeError" [] k = "StrFails" -> "StrFailsError"
                 [] k = "NoSource" -> "ValueError" [] OTHER -> "RuntimeError"
 
 \* ------------------------------------------------------------------ tables: command lines
